@@ -101,6 +101,8 @@ MC_EXPLANATION = (
 def _specs():
     d0 = {
         'platforms': ['default', 'P'],
+        'blueprint': {'default': {'stages': {0: {'resourceManager': {'lsf': {'queue': 'q0'}}}}},
+                      'P': {'stages': {0: {'resourceManager': {'lsf': {'queue': 'qp', 'reservation': 'rp'}}}}}},
         'variables': {'default': {'global': {'g': 'g0', 'v': 'gv', 'n': 2, 'pn': 5},
                                   'stages': {0: {'s': 's0', 'm': 0, 'pm': 6}, 1: {'s': 's1', 'm': 0}}},
                       'P': {'global': {'g': 'pg', 'pn': 1}, 'stages': {0: {'s': 'ps0', 'pm': 3}}}},
@@ -114,7 +116,8 @@ def _specs():
         ]}
     d1 = {
         'platforms': ['default', 'P'],
-        'blueprint': {'default': {'global': {'command': {'environment': 'none'}}},
+        'blueprint': {'default': {'global': {'command': {'environment': 'none'}},
+                                  'stages': {0: {'resourceManager': {'config': {'walltime': 30.0}}}}},
                       'P': {'global': {'resourceRequest': {'numberThreads': 4}},
                             'stages': {0: {'command': {'expandArguments': 'none'}}}}},
         'variables': {'default': {'global': {'g': 'g0', 'n': 2, 'pn': 5}, 'stages': {0: {'s': 's0', 'm': 0, 'pm': 6}}},
@@ -123,9 +126,12 @@ def _specs():
             {'name': 'A', 'stage': 0,
              'command': {'executable': 'echo', 'arguments': '%(g)s %(s)s %(v)s %(n)s %(pn)s %(m)s %(pm)s %(k)s'},
              'variables': {'v': 'c0v', 'k': 1}, 'resourceRequest': {'numberThreads': 2},
+             'resourceManager': {'config': {'backend': 'local'}, 'lsf': {'queue': 'qa'}},
              'override': {'P': {'command': {'arguments': 'over %(v)s %(g)s %(n)s %(pn)s %(m)s %(pm)s %(k)s'},
                                 'variables': {'v': 'ov'}}}},
-            {'name': 'AB', 'stage': 0, 'command': {'executable': 'echo', 'arguments': '%(s)s %(v)s %(n)s %(pm)s %(k)s'},
+            # an interpreter component that leaves expandArguments to the default (fixed up after resolution)
+            {'name': 'AB', 'stage': 0,
+             'command': {'interpreter': 'bash', 'executable': 'echo', 'arguments': '%(s)s %(v)s %(n)s %(pm)s %(k)s'},
              'variables': {'v': 'c1v', 'k': 1}},
         ]}
     d2 = {
@@ -175,8 +181,8 @@ def ops_for(spec, typed=False):
         ops.append(['delvar', i])
     for i in (0, 1):
         ops.append(['setarg', i])
-    for i in (0, 1):
-        ops.append(['setthr', i])
+    ops.append(['setthr', 0])
+    ops.append(['setcmd', 1])       # single-segment option: replaces the whole command section
     for i in (0, 1):
         ops.append(['rmarg', i])
     ops.append(['setglobal'])
@@ -208,7 +214,7 @@ def ops_for(spec, typed=False):
     return ops
 
 
-MUTATORS = ('setvar', 'delvar', 'setarg', 'setthr', 'rmarg', 'setglobal', 'setstage', 'setpglobal', 'setpstage',
+MUTATORS = ('setvar', 'delvar', 'setarg', 'setthr', 'setcmd', 'rmarg', 'setglobal', 'setstage', 'setpglobal', 'setpstage',
             'add', 'update', 'delete')
 
 
@@ -216,14 +222,19 @@ def _ref(cid):
     return 'stage%d.%s' % (cid[0], cid[1])
 
 
-def _component_desc(spec, i):
-    """Description used by add_component / update_component for component index i (always a fresh object)."""
+def _component_desc(spec, i, purpose='update'):
+    """Description used by add_component / update_component for component index i (always a fresh object).
+    The description that re-adds c1 differs from the one that replaces it."""
     if i == 2:
         import copy
         return copy.deepcopy(spec['add'])
     st, name = spec['comps'][i]
+    if purpose == 'add':
+        return {'name': name, 'stage': st, 'command': {'executable': 'echo', 'arguments': 'readd %(n)s %(m)s'},
+                'variables': {'v': 'rv', 'k': 1}}
     if i == 0:
-        return {'name': name, 'stage': st, 'command': {'executable': 'echo', 'arguments': 'upd0 %(g)s %(v)s %(n)s %(m)s'},
+        return {'name': name, 'stage': st,
+                'command': {'interpreter': 'bash', 'executable': 'echo', 'arguments': 'upd0 %(g)s %(v)s %(n)s %(m)s'},
                 'variables': {'v': 'uv0'}, 'resourceRequest': {'numberThreads': 5}}
     # deliberately without a 'variables' section
     return {'name': name, 'stage': st, 'command': {'executable': 'echo', 'arguments': 'upd1 %(s)s %(n)s %(m)s'}}
@@ -247,6 +258,9 @@ def apply_op(spec, conf, op):
                                   'na%d %%(g)s %%(s)s %%(v)s %%(n)s %%(m)s' % op[1])
         elif kind == 'setthr':
             conf.setOptionForNode(_ref(spec['comps'][op[1]]), '#resourceRequest.numberThreads', 7 + op[1])
+        elif kind == 'setcmd':
+            conf.setOptionForNode(_ref(spec['comps'][op[1]]), '#command',
+                                  {'executable': 'echo', 'arguments': 'cmd%d %%(n)s %%(m)s' % op[1]})
         elif kind == 'rmarg':
             conf.removeOptionForNode(_ref(spec['comps'][op[1]]), '#command.arguments')
         elif kind == 'setglobal':
@@ -275,7 +289,7 @@ def apply_op(spec, conf, op):
             else:
                 conc.set_platform_stage_variable(op[1], 'pm', 3.0 if eq else 'nps', op[2])
         elif kind == 'add':
-            conc.add_component(_component_desc(spec, op[1]))
+            conc.add_component(_component_desc(spec, op[1], 'add'))
         elif kind == 'update':
             conc.update_component(tuple(spec['comps'][op[1]]), _component_desc(spec, op[1]))
         elif kind == 'delete':
@@ -408,7 +422,9 @@ def fresh(spec):
 
 # flavours of the query that by-pass the cache: (name, keyword arguments)
 FLAVOURS = (('raw', {'raw': True, 'include_default': True}),       # what getOptionForNode asks
-            ('nodefaults', {}))                                    # include_default=False (the method's defaults)
+            ('nodefaults', {}),                                    # include_default=False (the method's defaults)
+            # what store_unreplicated_flowir_to_disk / ccommand ask: no built-in defaults underneath the blueprints
+            ('rawnofill', {'raw': True, 'include_default': True, 'inject_missing_fields': False}))
 
 
 def pairs_of(spec):
@@ -523,14 +539,16 @@ def judge(col, sink, spec, history, raw, got, exp, pair, phase, was_cached):
     flavour = pair[2] if len(pair) > 2 else 'resolved'
     where = 'get_component_configuration(%s, %s, platform=%s)' % (
         _ref(cid), {'resolved': 'include_default=True', 'raw': 'raw=True, include_default=True',
-                    'nodefaults': 'include_default=False'}[flavour], p)
+                    'nodefaults': 'include_default=False',
+                    'rawnofill': 'raw=True, include_default=True, inject_missing_fields=False'}[flavour], p)
     cached = 'cached' if was_cached else 'uncached'
     live_r = 'ok' if got[0] == 'ok' else got[1]
     scratch_r = 'ok' if exp[0] == 'ok' else exp[1]
     if phase == 'description-after-queries':
         kind = 'copy-leak-into-description'
-        why = ('after the caller changed dicts returned by queries the description itself changed: %s asked on a '
-               'FlowIRConcrete built from raw() now differs from what it was before the queries' % where)
+        why = ('read-only calls (queries of every flavour whose returned dicts the caller then changed, instance()) '
+               'changed the description itself: %s asked on a FlowIRConcrete built from raw() now differs from what '
+               'it was before them' % where)
     elif phase != 'first':
         kind = 'copy-leak'
         why = ('%s answered correctly, the caller changed the returned dict, and the %s query then returned a different '
@@ -625,9 +643,19 @@ def oracle(col, sink, spec, conf, history, raw, dkey):
             col.outcome('flavour:%s:%s' % (fname, 'equal' if got[0] == 'ok' else 'both-raise-' + got[1]))
             if got[0] == 'ok':
                 scramble(got[1])     # a leak shows in the next query or in the description check below
-    # the scrambled dicts must not have been wired into the description: what a from-scratch object answers for the
-    # description as it is NOW must be what it answered before the queries (getters may add empty sections, which is
-    # why descriptions are not compared literally)
+    # the other read-only view of the configuration: the instance description for each platform (its value is not
+    # judged here, only that producing it leaves the configuration alone)
+    for p in (PLATFORMS if full else ()):
+        try:
+            conc.instance(platform=p, ignore_errors=True)
+            col.outcome('instance:produced')
+        except HarnessError:
+            raise
+        except Exception as e:
+            col.outcome('instance:raised-%s' % type(e).__name__)
+    # neither the scrambled dicts nor the read-only calls may have changed the description: what a from-scratch object
+    # answers for the description as it is NOW must be what it answered before (getters may add empty sections, which
+    # is why descriptions are not compared literally)
     if canon_fast(conc.raw()) == canon_fast(raw):
         return
     _, dkey2, raw2 = state_key(conc)
